@@ -192,6 +192,6 @@ def run(ctx):
             ctx.ob('T9.cache', ds.fq, 'linecache.checkcache(filename) precedes linecache.getline(filename, ...) (stale source is '
                    'not shown)', bool(chk), loc=loc(ds, g.node), path=p.describe() if not chk else None)
     if n_get == 0:
-        ctx.ob('T9.cache', ds.fq, 'the line is fetched through linecache.getline', False, loc=ds.loc)
+        ctx.unknown('T9.cache', ds.fq, 'no linecache.getline call found', ds.loc)
     for r, n in (('T12.frame', 4), ('T12.keys', 1), ('T12.header', 1), ('T12.excline', 1), ('T12.srcline', 1), ('T19.line', 1), ('T9.cache', 1)):
         ctx.need(r, n)
